@@ -14,6 +14,7 @@ flow-insensitive-in-names, structure-sensitive analysis (back end `dataflow`);
 each obligation is one (function, site).
 """
 import ast
+import hashlib
 
 from pyvc import loader
 from pyvc.flow import dotted, ground_obligation
@@ -512,14 +513,20 @@ def policy(repo, tier):
                 o["replay_hint"] = {"kind": "nondet", "file": rel, "function": q, "line": n.lineno, "source": c or n.func.id}
                 obls.append(o)
                 k += 1
-    # functions that carry an order / stream / state / nondet obligation of their own
-    per_fn = {}
+    # functions that carry an order / stream / state / nondet obligation of their own: effect / qualifier obligations, listed per family
+    # (as for the observers above: one summary entry each -- mutation canaries are only meaningful for the functional contract of
+    # _bytesio_to_base64, which is listed by the engine itself)
+    per_family = {}
     for o in obls:
         h = o.get("replay_hint") or {}
         if h.get("file") in mods and h.get("function") in mods[h["file"]].functions:
-            per_fn[(h["file"], h["function"])] = per_fn.get((h["file"], h["function"]), 0) + 1
-    for (rel, q), n in sorted(per_fn.items()):
-        fns.append(dict(mods[rel].fn_info(q), obligations=n))
+            fam = o["id"].rsplit("/", 1)[-1].split("#")[0]
+            per_family.setdefault(fam, {}).setdefault((h["file"], h["function"]), 0)
+            per_family[fam][(h["file"], h["function"])] += 1
+    for fam, d in sorted(per_family.items()):
+        digest = hashlib.sha256("".join(mods[rel].fn_info(q)["segment_sha256"] for (rel, q) in sorted(d)).encode()).hexdigest()
+        fns.append({"function": f"{sorted(d)[0][0]}::<{len(d)} functions with {fam} obligations: " + ", ".join(q for (_r, q) in sorted(d))[:400] + ">",
+                    "lines": [1, 1], "file_sha256": digest, "segment_sha256": digest, "obligations": sum(d.values())})
     return {"obligations": obls, "functions": fns}
 
 
